@@ -91,6 +91,18 @@ func (m *C13Mon) OnBlock(blk *hist.Block) []Finding {
 	if credited.Cmp(consumed) > 0 {
 		out = append(out, Finding{"C13", "C13/credited-exceeds-consumed", fmt.Sprintf("block %d: rewards credited to validators (%s) and delegators (%s) exceed the amount accounted as pulled/consumed for the block (%s)", blk.H, credV, credD, consumed)})
 	}
+	// the amount a freshly started node would pull for this block (the box's read-only twin calculator,
+	// recorded just before BeginBlock): by the restart clause it is THE amount pulled for the block
+	if blk.Begin.TwinPull != "" && !strings.HasPrefix(blk.Begin.TwinPull, "error") {
+		pulled := bigOf(blk.Begin.TwinPull)
+		if credited.Cmp(pulled) > 0 {
+			out = append(out, Finding{"C13", "C13/credited-exceeds-pulled", fmt.Sprintf("block %d: rewards credited to validators (%s) and delegators (%s) exceed the amount pulled for the block (%s)", blk.H, credV, credD, pulled)})
+		}
+		if consumed.Cmp(pulled) > 0 {
+			out = append(out, Finding{"C13", "C13/consumed-exceeds-pulled", fmt.Sprintf("block %d: %s is booked as distributed for the block, more than the amount pulled (%s)", blk.H, consumed, pulled)})
+		}
+		out = append(out, Finding{"COUNT", "observed:blocks-with-pulled-amount", ""})
+	}
 	// schedule bound: what was left of the year when the cycle began
 	py, cy := rewardYears(blk.Prev), rewardYears(blk.Cur)
 	opt := rewardOptions(blk.Prev)
